@@ -5,6 +5,7 @@ from .. import netlab as nl
 from ..ref import wire
 
 from bacpypes.apdu import ConfirmedPrivateTransferACK, AbortPDU
+from bacpypes.pdu import Address
 from bacpypes.service.device import WhoIsIAmServices
 
 SEG = ["noSegmentation", "segmentedTransmit", "segmentedReceive", "segmentedBoth"]
@@ -26,7 +27,7 @@ class LearningStack(nl.AppStack, WhoIsIAmServices):
       outside="capability combinations not instantiated (see instance list), payload lengths outside the windows, lossy media",
       stubs=["virtual clock (task._time)", "asyncore.loop -> clock advance", "task._Trigger -> wake flag", "fresh singletons per path"],
       assumes=["the requesting application feeds I-Am announcements into DeviceInfoCache.iam_device_info (bacpypes leaves this to the application)"])
-def limits_scn(d, Sc, Ss, segc, segs, msc, known, req, resp, wmax=127, first_iam=None):
+def limits_scn(d, Sc, Ss, segc, segs, msc, known, req, resp, wmax=127, first_iam=None, client_iam=None, peer_asks_first=False):
     w = World()
     lan = nl.FaultLAN([], world=w)
     cdev = nl.make_device("c", 10, maxApduLengthAccepted=Sc, segmentationSupported=SEG[segc], maxSegmentsAccepted=msc)
@@ -48,6 +49,23 @@ def limits_scn(d, Sc, Ss, segc, segs, msc, known, req, resp, wmax=127, first_iam
         w.run()
         if client.deviceInfoCache.get_device_info(server.address) is None:
             raise Violation("i-am-not-learned")
+    if client_iam is not None:
+        # the CLIENT announced itself to the server earlier with another segmentation capability (same max APDU) than it
+        # has now: for a response what counts is what the request being answered says
+        real = cdev.segmentationSupported
+        cdev.segmentationSupported = SEG[client_iam]
+        client.i_am(address=server.address)
+        w.run()
+        cdev.segmentationSupported = real
+        if server.deviceInfoCache.get_device_info(client.address) is None:
+            raise Violation("i-am-not-learned", who="server")
+    if peer_asks_first:
+        # the peer first asks US something (a small confirmed request, answered at once): whatever that request says
+        # about the peer's ability to take segmented RESPONSES must not be taken for more than that
+        server.request(nl.private_transfer(client.address, b"?"))
+        w.run()
+        if len(server.confirmations) != 1 or not isinstance(server.confirmations[0], ConfirmedPrivateTransferACK):
+            raise Violation("peer-request-not-answered", n=len(server.confirmations))
     n0 = len(lan.frames)
     reqp = d.bytes(req[0], req[1], 'req_payload')
     respp = d.bytes(resp[0], resp[1], 'resp_payload')
@@ -131,6 +149,69 @@ def limits_scn(d, Sc, Ss, segc, segs, msc, known, req, resp, wmax=127, first_iam
     d.reach()
 
 
+@meta(bounds="one client stack (max APDU 50, proposes window wmax) sending a private transfer of nseg segments to a bare station "
+             "that plays the server: after every burst it sends a SegmentAck for a symbolic segment of the burst (the rest "
+             "counts as not received) granting a symbolic window 1..wmax - a peer may grant a different window with every "
+             "ack; after each ack the client continues right behind the acknowledged segment, has at most the granted "
+             "number of segments outstanding, numbers them consecutively and proposes a window in 1..127 in each; at the "
+             "end the station answers and the client completes",
+      outside="more than nseg segments; lost frames (C05); an ack that acknowledges MORE segments of the burst than the window it "
+              "grants at the same time (observed on the unchanged tree: the client stores the new window before it tests the "
+              "acknowledged number against it, takes the ack for a duplicate and stalls until the segment timer - no "
+              "statement of the twenty covers it, see DESIGN 12.5)",
+      assumes=["the acknowledged segment lies within the first `granted` segments of the burst (see 'outside')"],
+      stubs=["virtual clock (task._time)", "asyncore.loop -> clock advance", "task._Trigger -> wake flag", "fresh singletons per path"])
+def window_follow(d, nseg, wmax):
+    w = World()
+    lan = nl.FaultLAN([], world=w)
+    cdev = nl.make_device("c", 10, maxApduLengthAccepted=50, segmentationSupported="segmentedBoth", maxSegmentsAccepted=64)
+    client = nl.AppStack(cdev, lan, window=min(wmax, 127))
+    peer = nl.RawPeer(20, lan)
+    # 44 octets of service data per segment; the private-transfer body is 9 + n octets for 5 <= n <= 253
+    n = 44 * (nseg - 1) + 20 - 9
+    client.request(nl.private_transfer(Address(20), bytes(n)))
+    w.run(until=w.clock)
+    seen = 0            # frames of the client already looked at
+    expect = 0          # sequence number the next burst has to start with
+    granted = 1         # before the first ack only the first segment may go out
+    acks = 0
+    inv = None
+    while True:
+        frames = [wire.parse_frame(data)[1] for (src, data) in peer.received[seen:]]
+        seen = len(peer.received)
+        segs = [a for a in frames if a is not None and a["type"] == 0]
+        if len(segs) > granted:
+            raise Violation("more-segments-outstanding-than-granted", sent=len(segs), granted=granted, after_ack=acks)
+        if not segs:
+            raise Violation("no-segment-after-ack", after_ack=acks, granted=granted)
+        for k, a in enumerate(segs):
+            if not a["seg"] or a["seq"] != (expect + k) % 256:
+                raise Violation("segment-sequence", got=a["seq"], want=(expect + k) % 256, after_ack=acks)
+            if not (1 <= a["win"] <= 127):
+                raise Violation("window-out-of-range", win=a["win"])
+            if a["mor"] != (expect + k < nseg - 1):
+                raise Violation("more-follows", seq=a["seq"], mor=a["mor"], nseg=nseg)
+        inv = segs[0]["invoke"]
+        if acks > 4 * nseg:
+            raise Violation("no-progress")
+        # acknowledge one segment of the burst, granting a window of the station's choice
+        upto = d.int(0, len(segs) - 1, 'acked_of_burst%d' % acks)
+        granted = d.int(1, wmax, 'granted%d' % acks)
+        d.assume(upto < granted)
+        acks += 1
+        last = expect + upto
+        peer.send(Address(10), nl.frame(bytes([0x41, inv, last % 256, granted]), False))
+        w.run(until=w.clock)
+        expect = last + 1
+        if expect == nseg:
+            break
+    peer.send(Address(10), nl.frame(bytes([0x20, inv, 18]), False))
+    w.run()
+    if len(client.confirmations) != 1 or nl.outcome_kind(client.confirmations[0]) != "ack":
+        raise Violation("outcome", got=[nl.outcome_kind(c) for c in client.confirmations])
+    d.reach()
+
+
 def body_len(n):
     """octets of a ConfirmedPrivateTransfer request/ack body carrying an n-octet string: [0] vendor 999 (3),
     [1] service 1 (2), opening tag (1), octet-string tag with its length escape, the octets, closing tag (1)"""
@@ -161,7 +242,9 @@ def label(p):
     return "Sc%d,Ss%d,seg%d/%d,ms%s,%s,req%s,resp%s%s" % (p["Sc"], p["Ss"], p["segc"], p["segs"], p["msc"],
                                                          "known" if p["known"] else "unknown",
                                                          "-".join(map(str, p["req"])), "-".join(map(str, p["resp"])),
-                                                         ",re-announced" if p.get("first_iam") else "")
+                                                         (",re-announced" if p.get("first_iam") else "")
+                                                         + (",client-announced-seg%d" % p["client_iam"] if p.get("client_iam") is not None else "")
+                                                         + (",peer-asks-first" if p.get("peer_asks_first") else ""))
 
 
 def instances(tier):
@@ -199,8 +282,15 @@ def instances(tier):
         # the server announced itself twice: first as a larger / more capable device, then as what it is
         cfgs.append(dict(Sc=128, Ss=50, segc=3, segs=3, msc=16, known=True, req=(60, 60), resp=(2, 2), first_iam=(128, 3)))
         cfgs.append(dict(Sc=50, Ss=50, segc=3, segs=1, msc=16, known=True, req=(60, 60), resp=(2, 2), first_iam=(50, 3)))
+        # the client once announced itself as able to take segments and no longer is: the request's SA bit decides
+        cfgs.append(dict(Sc=50, Ss=50, segc=0, segs=3, msc=16, known=True, req=(2, 2), resp=(60, 60), client_iam=3))
+        cfgs.append(dict(Sc=50, Ss=50, segc=1, segs=3, msc=16, known=True, req=(2, 2), resp=(60, 60), client_iam=3))
+        # a peer that cannot receive segments asks us something first; then we have a long request for it
+        cfgs.append(dict(Sc=50, Ss=50, segc=3, segs=0, msc=16, known=True, req=(60, 60), resp=(2, 2), peer_asks_first=True))
+        cfgs.append(dict(Sc=50, Ss=50, segc=3, segs=1, msc=16, known=True, req=(60, 60), resp=(2, 2), peer_asks_first=True))
         for c in cfgs:
             out.append(Inst(limits_scn, dict(c, wmax=127), budget=80, path_timeout=60, label=label(c)))
+        out.append(Inst(window_follow, dict(nseg=5, wmax=3), budget=150, path_timeout=60))
     else:
         sizes = [50, 128, 206, 480]
         for Sc in sizes:
@@ -227,6 +317,16 @@ def instances(tier):
                                       (128, 50, 0, (480, 3))):
             c = dict(Sc=Sc, Ss=Ss, segc=3, segs=segs, msc=16, known=True, req=(Ss + 10, Ss + 12), resp=(2, 2), first_iam=first)
             out.append(Inst(limits_scn, dict(c, wmax=127), budget=400, path_timeout=90, label=label(c)))
+        for segc in (0, 1):
+            for ci in (2, 3):
+                c = dict(Sc=50, Ss=50, segc=segc, segs=3, msc=16, known=True, req=(2, 2), resp=(60, 60), client_iam=ci)
+                out.append(Inst(limits_scn, dict(c, wmax=127), budget=400, path_timeout=90, label=label(c)))
+        for segs in (0, 1, 2, 3):
+            for known in (True, False):
+                c = dict(Sc=50, Ss=50, segc=3, segs=segs, msc=16, known=known, req=(60, 60), resp=(2, 2), peer_asks_first=True)
+                out.append(Inst(limits_scn, dict(c, wmax=127), budget=400, path_timeout=90, label=label(c)))
+        out.append(Inst(window_follow, dict(nseg=8, wmax=8), budget=900, path_timeout=90))
+        out.append(Inst(window_follow, dict(nseg=5, wmax=127), budget=900, path_timeout=90))
         for Sx in (1024, 1476):
             c = dict(Sc=Sx, Ss=Sx, segc=3, segs=3, msc=16, known=True, req=(Sx - 14, Sx - 10), resp=(2, 2))
             out.append(Inst(limits_scn, dict(c, wmax=127), budget=2400, path_timeout=600, label=label(c)))
